@@ -28,7 +28,8 @@ LOAD_LIMIT = 20
 COMMENTS = ["a plain comment", "mV", "ms**-1", "pA*pF**-1", "1/ms", "42", "3.5", "2*3", "1/0", "9**9**9", "x", "dt", "sigma", "dx_dt = 5",
             "lambda", "def f():", "import os", "(", ")", "[mV", "{", "unbalanced ) paren", "'quoted'", '"double"', "# nested # hashes",
             "", " ", "mV # and more", "not a unit at all, really", "µA", "e", "E", "pi", "1e400", "-", "**", "a + b", "states(q=1)",
-            "expressions(\"Z\")", "% percent", "mV/ms;", "\\backslash", "tab\tinside", "very " * 30 + "long"]
+            "expressions(\"Z\")", "% percent", "mV/ms;", "\\backslash", "tab\tinside", "very " * 30 + "long",
+            "data from C:\\models\\hh\\", "continued on the next line \\", "10 mV", "0.001*mM", "1e3", "mV)", "ms # s"]
 
 BASES = [
     ("parameters(sigma=12.0, rho=21.0, beta=2.4)\nstates(x=1.0, y=2.0, z=3.05)\n"
@@ -89,6 +90,10 @@ def layout_edits(base: str):
     out["unit-removed"] = base.replace(', unit="mV"', "").replace('ScalarParam(2.0, unit="ms")', "2.0")
     out["description-changed"] = base.replace('description="volt"', 'description="something = else, with (parens) # and hash"')
     out["unit-invalid"] = base.replace('unit="mV"', 'unit="not_a_unit"')
+    out["unit-scaled"] = base.replace('unit="mV"', 'unit="10 mV"').replace('unit="ms"', 'unit="0.001*s"')
+    out["unit-number"] = base.replace('unit="mV"', 'unit="2"')
+    out["unit-broken"] = base.replace('unit="mV"', 'unit="mV)"')
+    out["cr-only"] = "\r".join(lines) + "\r"
     return {k: v for k, v in out.items() if v != base}
 
 
